@@ -1,0 +1,95 @@
+//go:build verif
+
+// Contracts for the deductive verifier under /verif (govc). This file is compiled only with the build
+// tag "verif"; it contains specifications as //@ comments and no executable code.
+
+package layers
+
+import "github.com/gopacket/gopacket"
+
+// ---- TCP/UDP/ICMPv6 checksum over the pseudo-header (C08) -------------------------------------------------------
+
+// w16(a, i): the big-endian 16-bit word at offset i.
+//@ spec w16(a []byte, i int) int = 256*a[i] + a[i+1]
+
+// Sum of the address words of an IPv4 pseudo-header.
+//@ func (ip *IPv4) pseudoheaderChecksum() (csum uint32, err error)
+//@   props C08
+//@   ensures err == nil ==> len(ip.SrcIP) == 4 && len(ip.DstIP) == 4
+//@   ensures err == nil ==> csum == w16(ip.SrcIP, 0) + w16(ip.SrcIP, 2) + w16(ip.DstIP, 0) + w16(ip.DstIP, 2)
+
+// What a transport layer may assume about its network layer: the IPv4 case is the contract above (the IPv4
+// method is verified against it); for IPv6 only the bound that keeps the accumulator from wrapping is stated.
+//@ ifacecontract tcpipPseudoHeader.pseudoheaderChecksum() (uint32, error)
+//@   props C08
+//@   ensures result1 == nil && typeis(this, P_IPv4) ==> len(cast(this, IPv4).SrcIP) == 4 && len(cast(this, IPv4).DstIP) == 4
+//@   ensures result1 == nil && typeis(this, P_IPv4) ==> result0 == w16(cast(this, IPv4).SrcIP, 0) + w16(cast(this, IPv4).SrcIP, 2) + w16(cast(this, IPv4).DstIP, 0) + w16(cast(this, IPv4).DstIP, 2)
+//@   ensures 0 <= result0 && result0 <= 2097120
+
+// The transport checksum accumulator is the RFC 1071 sum of pseudo-header (current addresses of the network layer,
+// protocol, upper-layer length) and of header plus payload, reduced modulo 2^32-1 (end-around carry).
+//@ func (c *tcpipchecksum) computeChecksum(headerAndPayload []byte, headerProtocol IPProtocol) (uint32, error)
+//@   props C08
+//@   requires len(headerAndPayload) <= 1099511627776
+//@   ensures result1 == nil ==> c.pseudoheader != nil
+//@   ensures result1 == nil && typeis(c.pseudoheader, P_IPv4) ==> result0 == oc32(w16(cast(c.pseudoheader, IPv4).SrcIP, 0) + w16(cast(c.pseudoheader, IPv4).SrcIP, 2) + w16(cast(c.pseudoheader, IPv4).DstIP, 0) + w16(cast(c.pseudoheader, IPv4).DstIP, 2) + headerProtocol + len(headerAndPayload) % 4294967296 % 65536 + len(headerAndPayload) % 4294967296 / 65536 + tot16(headerAndPayload))
+
+// ---- checksum emission (C08) and header layout (C06) of the simple fixed-size layers -----------------------------
+// sbview(b) is the content of the serialize buffer (abstract view of the SerializeBuffer interface contract).
+
+// ICMPv4: 8 header bytes are prepended, the payload behind them is untouched; when checksums are computed the
+// accumulator handed to FoldChecksum is the RFC 1071 sum of the whole message with a zeroed checksum field, and
+// the folded value is what is written at offset 2.
+//@ func (i *ICMPv4) SerializeTo(b gopacket.SerializeBuffer, opts gopacket.SerializeOptions) error
+//@   props C08 C06
+//@   requires len(sbview(b)) <= 1099511627000
+//@   ensures result == nil ==> len(sbview(b)) == old(len(sbview(b))) + 8
+//@   ensures result == nil ==> forall k int :: 0 <= k && k < old(len(sbview(b))) ==> sbview(b)[8 + k] == old(sbview(b)[k])
+//@   ensures result == nil ==> be16(sbview(b), 0) == i.TypeCode && be16(sbview(b), 2) == i.Checksum && be16(sbview(b), 4) == i.Id && be16(sbview(b), 6) == i.Seq
+//@   at FoldChecksum 0: assert arg0 == oc32(tot16(sbview(b))) && sbview(b)[2] == 0 && sbview(b)[3] == 0 && len(sbview(b)) == old(len(sbview(b))) + 8
+
+// UDP: layout of the 8 header bytes over the untouched payload; with FixLengths the length field is header plus
+// payload (0 for an IPv6 jumbogram); with ComputeChecksums the accumulator handed to FoldChecksum is the sum over
+// pseudo-header and the whole datagram with a zeroed checksum field, and a folded value of zero is sent as 0xffff.
+//@ func (u *UDP) SerializeTo(b gopacket.SerializeBuffer, opts gopacket.SerializeOptions) error
+//@   props C08 C06
+//@   requires len(sbview(b)) <= 1099511627000
+//@   ensures result == nil ==> len(sbview(b)) == old(len(sbview(b))) + 8
+//@   ensures result == nil ==> forall k int :: 0 <= k && k < old(len(sbview(b))) ==> sbview(b)[8 + k] == old(sbview(b)[k])
+//@   ensures result == nil ==> be16(sbview(b), 0) == u.SrcPort && be16(sbview(b), 2) == u.DstPort && be16(sbview(b), 4) == u.Length && be16(sbview(b), 6) == u.Checksum
+//@   ensures result == nil && opts.FixLengths && old(len(sbview(b))) + 8 <= 65535 ==> u.Length == old(len(sbview(b))) + 8
+//@   ensures result == nil && opts.ComputeChecksums ==> u.Checksum != 0
+//@   at computeChecksum 0: assert sameSlice(arg1, sbview(b)) && sbview(b)[6] == 0 && sbview(b)[7] == 0 && len(sbview(b)) == old(len(sbview(b))) + 8 && arg2 == 17
+
+// UDP decoding reads exactly that layout back; the payload is what follows the header, cut at the length field.
+//@ func (udp *UDP) DecodeFromBytes(data []byte, df gopacket.DecodeFeedback) error
+//@   props C06
+//@   ensures result == nil ==> len(data) >= 8 && udp.SrcPort == be16(data, 0) && udp.DstPort == be16(data, 2) && udp.Length == be16(data, 4) && udp.Checksum == be16(data, 6)
+//@   ensures result == nil ==> udp.BaseLayer.Contents.arr == data.arr && udp.BaseLayer.Contents.off == data.off && len(udp.BaseLayer.Contents) == 8
+//@   ensures result == nil && udp.Length >= 8 && udp.Length <= len(data) ==> udp.BaseLayer.Payload.arr == data.arr && udp.BaseLayer.Payload.off == data.off + 8 && len(udp.BaseLayer.Payload) == udp.Length - 8
+//@   ensures len(data) >= 8 && be16(data, 4) >= 8 ==> result == nil
+
+// Round trip (C06): a UDP header written with FixLengths over a payload of at most 65527 bytes decodes without
+// error to the same ports, length and checksum, and to exactly the payload that was in the buffer.
+//@ func verifLemmaRoundTripUDP(u *UDP, b gopacket.SerializeBuffer, cs bool, df gopacket.DecodeFeedback) bool
+//@   props C06
+//@   requires len(sbview(b)) <= 65527
+//@   ensures result
+func verifLemmaRoundTripUDP(u *UDP, b gopacket.SerializeBuffer, cs bool, df gopacket.DecodeFeedback) bool {
+	n := len(b.Bytes())
+	err := u.SerializeTo(b, gopacket.SerializeOptions{FixLengths: true, ComputeChecksums: cs})
+	// the decoder's frame is per field, not per object: read what was written before decoding into another UDP
+	sp, dp, ln, ck := u.SrcPort, u.DstPort, u.Length, u.Checksum
+	var d UDP
+	derr := d.DecodeFromBytes(b.Bytes(), df)
+	return err != nil || (derr == nil && d.SrcPort == sp && d.DstPort == dp && d.Length == ln && d.Checksum == ck &&
+		len(d.Payload) == n && int(d.Length) == n+8)
+}
+
+// TCP: when checksums are computed, the sum is taken over pseudo-header and the whole segment (header with options
+// and padding, plus payload) with a zeroed checksum field at offset 16, for protocol 6, and the folded value is
+// what ends up in the header.
+//@ func (t *TCP) SerializeTo(b gopacket.SerializeBuffer, opts gopacket.SerializeOptions) error
+//@   props C08
+//@   at computeChecksum 0: assert sameSlice(arg1, sbview(b)) && sbview(b)[16] == 0 && sbview(b)[17] == 0 && arg2 == 6
+//@   ensures result == nil ==> be16(sbview(b), 16) == t.Checksum
